@@ -25,6 +25,7 @@ func AllMonitors() []Monitor {
 		&MonC15{},
 		&MonC16{},
 		&MonC18{},
+		&MonC19{},
 	}
 }
 
@@ -263,3 +264,32 @@ func planC18(w *World, spec RunSpec) {
 }
 
 func init() { Plans["C18"] = planC18 }
+
+// planC19 drives hostile inputs the simulated environment can deliver:
+// malformed status shapes, odd ObjectTemplate specs, malformed package contents
+// and torn OCI streams.
+func planC19(w *World, spec RunSpec) {
+	s := w.Scn
+	w.setupCommon(0)
+	w.drawFaultMix("err-before", "lost-response", "crash", "duplicate")
+	w.Cfg.Ndist = 80 + s.Intn(300, "ndist")
+	switch spec.Index % 3 {
+	case 0:
+		w.Scenario = GenOS(w, OSProfile{MaxSets: 2, Delegation: true, Lifecycle: true, CondMappings: true, LateCreate: true})
+	case 1:
+		w.Cfg.Templates = true
+		w.Scenario = GenOT(w, 5, "hostile")
+	case 2:
+		w.Cfg.Packages = true
+		w.Scenario = GenPKG(w, 4, "hostile")
+	}
+	w.AddAgent(&HostileAgent{Budget: 2 + s.Intn(10, "hostile-budget")})
+	w.StartProcesses()
+	w.Disturb(w.Cfg.Ndist)
+	w.Settle(w.Cfg.CalmBudget)
+	for _, m := range w.Monitors {
+		m.OnEnd(w)
+	}
+}
+
+func init() { Plans["C19"] = planC19 }
